@@ -136,6 +136,75 @@ fn optional_argument_forms(ctx: &Ctx) {
     }
 }
 
+
+/// HISTORIES on one thread: a few identities, every ordered (sender, recipient) pair, in several orders of operation
+/// (all encryptions then all decryptions; each file decrypted at once; grouped by recipient; grouped by sender). A
+/// file's fate must not depend on which handshakes the same thread performed before.
+fn same_thread_histories(ctx: &Ctx) {
+    let rounds = ctx.tier.pick(2, 30);
+    for round in 0..rounds {
+        let mut rng = Rng::fork(ctx.seed, &format!("C01-hist-{}", round));
+        let ids: Vec<([u8; 32], [u8; 32])> = (0..4).map(|_| { let k = rng.arr32(); (k, refspec::pubkey_of(&k)) }).collect();
+        let mut pairs: Vec<(usize, usize)> = (0..4).flat_map(|a| (0..4).map(move |b| (a, b))).collect();
+        for order in 0..4 {
+            match order {
+                0 => {}
+                1 => pairs.sort_by_key(|p| (p.1, p.0)), // grouped by recipient
+                2 => pairs.sort_by_key(|p| (p.0, p.1)), // grouped by sender
+                _ => {
+                    for i in (1..pairs.len()).rev() {
+                        let j = rng.below(i as u64 + 1) as usize;
+                        pairs.swap(i, j);
+                    }
+                }
+            }
+            let ptlen = *rng.pick(&[0usize, 7, 65536 + 3]);
+            let pt = rng.bytes(ptlen);
+            let mut files: Vec<Vec<u8>> = Vec::new();
+            let interleave = order % 2 == 1;
+            let mut judge = |ctx: &Ctx, step: usize, a: usize, b: usize, f: &Vec<u8>| -> bool {
+                let d = key_decrypt_run(f, &Io::plain(), &ids[b].0, &ids[b].1);
+                ctx.eval();
+                let ok = matches!(&d.outcome, Outcome::Ok(Some(s)) if *s == ids[a].1) && d.out == pt;
+                if !ok {
+                    ctx.violation("C01:history:file-does-not-round-trip-after-earlier-handshakes-on-the-same-thread", json!({"round": round, "order": (["all pairs, encrypt then decrypt", "grouped by recipient, decrypt at once", "grouped by sender, encrypt then decrypt", "shuffled, decrypt at once"][order]), "step": step, "sender_index": a, "recipient_index": b, "result": d.outcome.class(), "plaintext_len": pt.len()}));
+                }
+                ok
+            };
+            let mut all_ok = true;
+            for (step, &(a, b)) in pairs.iter().enumerate() {
+                let e = key_encrypt_run(&pt, &Io::plain(), &KeyEnc { s_priv: &ids[a].0, s_pub: &ids[a].1, r_pub: &ids[b].1, e_priv: None, payload: None });
+                ctx.eval();
+                if !e.outcome.is_ok() {
+                    ctx.violation(&format!("C01:history:encrypt-failed:{}", sig_class(&e.outcome)), json!({"round": round, "step": step}));
+                    all_ok = false;
+                    break;
+                }
+                if interleave {
+                    if !judge(ctx, step, a, b, &e.out) {
+                        all_ok = false;
+                        break;
+                    }
+                } else {
+                    files.push(e.out);
+                }
+            }
+            if all_ok && !interleave {
+                for (step, (&(a, b), f)) in pairs.iter().zip(files.iter()).enumerate() {
+                    if !judge(ctx, step, a, b, f) {
+                        all_ok = false;
+                        break;
+                    }
+                }
+            }
+            if all_ok {
+                ctx.seen("same-thread history: every (sender, recipient) pair round-trips whatever came before");
+                ctx.distinct(&format!("hist|{}|{}", round, order));
+            }
+        }
+    }
+}
+
 fn cli_roundtrips(ctx: &Ctx) {
     use crate::cli::{keyring_text, Cmd, Exit, Ident, Stdin, WorkDir};
     let mut rng = Rng::fork(ctx.seed, "C01-cli");
@@ -416,6 +485,7 @@ pub fn run(ctx: &Ctx) {
     });
     ctx.note("production_lengths", json!(lengths));
     optional_argument_forms(ctx);
+    same_thread_histories(ctx);
     if !crate::lib_only() {
         cli_roundtrips(ctx);
         cli_name_selection(ctx);
@@ -427,6 +497,7 @@ pub fn run(ctx: &Ctx) {
     ctx.require("cli round trip ok: pipes", 4);
     ctx.require("cli round trip ok: files, sender and recipient are the same key", 2);
     ctx.require("prod: chunks=", 50);
+    ctx.require("same-thread history", 6);
     ctx.require("optional argument form round-trips", 40);
     ctx.require("small: chunks=", 500);
 }
